@@ -170,6 +170,17 @@ func genMagCase(r *Rng) magCase {
 	if c.Op == "bool" && r.Chance(0.8) {
 		c.Clip = genPaths(r, g, 2, 6)
 	}
+	if c.Op == "bool" && r.Chance(0.35) {
+		// messy unit-grid polygons: many self-intersections at non-integer points, so that the
+		// rounded output rings need the self-intersection repair (fixSelfIntersects / doSplitOp,
+		// which works with ring areas) on top of the sweep
+		m := GenCfg{Grid: 30, Unit: 1}
+		c.Subject = clip.Paths64{genRandPoly(r, m, r.Range(6, 12))}
+		c.Clip = nil
+		if r.Bool() {
+			c.Clip = clip.Paths64{genRandPoly(r, m, r.Range(4, 10))}
+		}
+	}
 	if c.Op == "inflate" {
 		c.Subject = clip.Paths64{genStar(r, g, r.Range(3, 7))}
 	}
@@ -182,6 +193,20 @@ func genMagCase(r *Rng) magCase {
 		c.K = []int64{3, 1 << 10, 1 << 20, (1 << 29) / ext}[r.Intn(4)]
 	default: // scaling up to the advertised 2^61
 		c.K = []int64{(1 << 31) / ext * 4, (1 << 40) / ext, (1 << 52) / ext, (1 << 60) / ext}[r.Intn(4)]
+	}
+	if r.Chance(0.17) {
+		// dense self-intersecting polygons far from the origin: the rounded output rings of such
+		// inputs go through the self-intersection repair (fixSelfIntersects / doSplitOp), whose
+		// decisions rest on float ring areas — the part of the engine that sees absolute
+		// coordinates of the output rather than the exact 128-bit predicates
+		c.Op, c.K = "bool", 1
+		c.Subject = clip.Paths64{genRandPoly(r, GenCfg{Grid: 100, Unit: 1}, r.Range(16, 24))}
+		c.Clip = nil
+		if r.Chance(0.3) {
+			c.Clip = clip.Paths64{genRandPoly(r, GenCfg{Grid: 100, Unit: 1}, r.Range(3, 8))}
+		}
+		mag := []int64{1 << 31, 1 << 40, (1 << 52) - 200}[r.Intn(3)]
+		c.Dx, c.Dy = (int64(r.Intn(2001))-1000)*(mag/1000), (int64(r.Intn(2001))-1000)*(mag/1000)
 	}
 	c.Delta = []float64{2, 5, -2, -4}[r.Intn(4)]
 	a, b := g.pt(r), g.pt(r)
@@ -216,7 +241,7 @@ func init() {
 			c := genMagCase(NewRng(ctx.Seed, "c13", i))
 			return &Violation{Property: "C13", Kind: "fault:" + c.Op, Signature: c13Sig(c), Detail: fmt.Sprintf("%s on the transformed input (×%d, +(%d,%d)): %s", c.Op, c.K, c.Dx, c.Dy, how), Case: c, Stream: "c13", Index: i, Seed: ctx.Seed}
 		}},
-		"metamorphic: inputs T from C01/C05/C06/C16's generators and their images g·T under translations up to 2^52 and integer scalings up to 2^61; f(g·T) is compared with g·f(T) as regions by the Lean oracle (band = transformed inputs, radius 2 resp. 2 + extent·2^-40) for BooleanOpPaths64, InflatePaths64, RectClipPaths64, and exactly for Area64, PointInPolygon and the vertices retained by SimplifyPath64; every case in a child process; non-trivial = a case whose untransformed result is non-empty",
+		"metamorphic: inputs T from C01/C05/C06/C16's generators (plus messy 6-12-gons on a 30-unit grid and 16-24-gons on a 100-unit grid translated by 2^31…2^52, whose output rings need the self-intersection repair) and their images g·T under translations up to 2^52 and integer scalings up to 2^61; f(g·T) is compared with g·f(T) as regions by the Lean oracle (band = transformed inputs, radius 2 resp. 2 + extent·2^-40) for BooleanOpPaths64, InflatePaths64, RectClipPaths64, and exactly for Area64, PointInPolygon and the vertices retained by SimplifyPath64; every case in a child process; non-trivial = a case whose untransformed result is non-empty",
 		3000, 200000)
 	replays["c13-search"] = func(ctx *Ctx, o *Oracle, raw json.RawMessage) *Violation {
 		var c magCase
